@@ -43,9 +43,9 @@ func c02run(r *hk.Reporter, c *c02case) {
 		r.Inconclusive(fmt.Sprintf("c02: stream constructed for [%s] but the model rejects [%s]", c.plan, got))
 		return
 	}
-	rd := newScript(c.stream)
+	rd := zvNewScript(c.stream)
 	if c.eofWithLast {
-		rd = newScript(c.stream[:model.Consumed])
+		rd = zvNewScript(c.stream[:model.Consumed])
 		rd.errWithFull = true
 	}
 	rd.chunk = c.chunk
@@ -59,12 +59,12 @@ func c02run(r *hk.Reporter, c *c02case) {
 	}
 	detail := hk.D{"priv": hk.Hex(c.priv), "e": hk.Hex(c.e), "stream": hk.Hex(shown), "stream_bytes_consumed_by_model": model.Consumed, "chunk": c.chunk,
 		"model_rejects": model.Rejected, "model_r": hk.Hex(ref.B32(model.R)), "model_s": hk.Hex(ref.B32(model.S)),
-		"got_r": hexOrNil(rr), "got_s": hexOrNil(ss), "err": errStr(err), "consumed": rd.off, "model_consumed": model.Consumed}
+		"got_r": zvHexOrNil(rr), "got_s": zvHexOrNil(ss), "err": zvErrStr(err), "consumed": rd.off, "model_consumed": model.Consumed}
 	cls := "rejects=[" + got + "]"
 	if c.label != "" {
 		cls = c.label + ":" + cls
 		x1e := new(big.Int).Add(ref.Int(c.e), ref.BaseMulFast(ref.Int(c.stream[model.Consumed-32:model.Consumed])).X)
-		r.Count(fmt.Sprintf("e_plus_x1_div_n_%d", new(big.Int).Div(x1e, nI).Int64()), 1)
+		r.Count(fmt.Sprintf("e_plus_x1_div_n_%d", new(big.Int).Div(x1e, zvNI).Int64()), 1)
 	}
 	switch {
 	case p:
@@ -82,13 +82,13 @@ func c02run(r *hk.Reporter, c *c02case) {
 		detail["reads"] = rd.events
 		r.Violation("draw-not-in-32-byte-units:"+cls, detail)
 	}
-	r.Eval(fmt.Sprintf("%s,chunk=%d,lz(r)=%d,lz(s)=%d", cls, c.chunk, lzClass(model.R), lzClass(model.S)))
+	r.Eval(fmt.Sprintf("%s,chunk=%d,lz(r)=%d,lz(s)=%d", cls, c.chunk, zvLzClass(model.R), zvLzClass(model.S)))
 }
 
 // rangeRejects are candidates k outside [1,n-1].
-func rangeRejects(rng *hk.RNG) [][]byte {
-	over := new(big.Int).Add(nI, new(big.Int).SetBytes(rng.Bytes(8)))
-	return [][]byte{make([]byte, 32), ref.B32(nI), ref.B32(new(big.Int).Add(nI, bi(1))), ref.B32(new(big.Int).Sub(b256, bi(1))), ref.B32(over)}
+func zvRangeRejects(rng *hk.RNG) [][]byte {
+	over := new(big.Int).Add(zvNI, new(big.Int).SetBytes(rng.Bytes(8)))
+	return [][]byte{make([]byte, 32), ref.B32(zvNI), ref.B32(new(big.Int).Add(zvNI, zvBi(1))), ref.B32(new(big.Int).Sub(zvB256, zvBi(1))), ref.B32(over)}
 }
 
 func TestVerifC02(t *testing.T) {
@@ -99,14 +99,14 @@ func TestVerifC02(t *testing.T) {
 		return
 	}
 	rng := hk.NewRNG(hk.Seed(), "c02")
-	hostilePrelude(hk.NewRNG(hk.Seed(), "prelude"))
-	keys := specialKeys()
+	zvHostilePrelude(hk.NewRNG(hk.Seed(), "prelude"))
+	keys := zvSpecialKeys()
 	for i := 0; i < hk.N(6, 30); i++ {
-		keys = append(keys, randScalar(rng))
+		keys = append(keys, zvRandScalar(rng))
 	}
 	// keys whose d+1 (the value the signer inverts) has a carry-critical internal representation
-	for _, v := range montgomeryPatternScalars(rng, 40)[:10] {
-		if d := new(big.Int).Sub(v, bi(1)); ref.ValidPriv(d) {
+	for _, v := range zvMontgomeryPatternScalars(rng, 40)[:10] {
+		if d := new(big.Int).Sub(v, zvBi(1)); ref.ValidPriv(d) {
 			keys = append(keys, d)
 		}
 	}
@@ -124,7 +124,7 @@ func TestVerifC02(t *testing.T) {
 		d := keys[rng.Intn(len(keys))]
 		stream := rng.Bytes(32 * 4)
 		if i%3 == 1 {
-			stream = append(ref.B32(nI), stream...)
+			stream = append(ref.B32(zvNI), stream...)
 		}
 		cases = append(cases, &c02case{d: d, priv: ref.B32(d), e: rng.Bytes(32), stream: stream, chunk: chunks[i%len(chunks)], plan: "random", label: "eof-with-last-bytes", eofWithLast: true})
 	}
@@ -134,22 +134,22 @@ func TestVerifC02(t *testing.T) {
 		var e []byte
 		switch i % 6 {
 		case 0:
-			e = ref.B32(nI)
+			e = ref.B32(zvNI)
 		case 1:
-			e = ref.B32(new(big.Int).Add(nI, bi(1)))
+			e = ref.B32(new(big.Int).Add(zvNI, zvBi(1)))
 		case 2:
-			e = ref.B32(new(big.Int).Sub(b256, bi(1)))
+			e = ref.B32(new(big.Int).Sub(zvB256, zvBi(1)))
 		case 3:
 			e = append([]byte{0xff, 0xff, 0xff, 0xff}, rng.Bytes(28)...)
 		case 4:
 			e = make([]byte, 32)
 		default:
-			e = ref.B32(bi(1))
+			e = ref.B32(zvBi(1))
 		}
 		cases = append(cases, &c02case{d: d, priv: ref.B32(d), e: e, stream: rng.Bytes(32 * 8), chunk: chunks[rng.Intn(len(chunks))], plan: "random"})
 	}
 	// nonce boundary values as first candidate: 1, 2, n-1, n-2
-	for _, k := range []*big.Int{bi(1), bi(2), nm1, nm2} {
+	for _, k := range []*big.Int{zvBi(1), zvBi(2), zvNm1, zvNm2} {
 		for j := 0; j < 3; j++ {
 			d := keys[rng.Intn(len(keys))]
 			cases = append(cases, &c02case{d: d, priv: ref.B32(d), e: rng.Bytes(32), stream: append(ref.B32(k), rng.Bytes(32*6)...), plan: "random"})
@@ -157,7 +157,7 @@ func TestVerifC02(t *testing.T) {
 	}
 	// nonces from the rare-x1 fixture (x1 within 2^225 of 2^256, or below 2^226) with digests at the
 	// boundaries where e + x1 crosses 2n / n; preceded sometimes by a range reject
-	rare, rerr := rareNonceCases(rng)
+	rare, rerr := zvRareNonceCases(rng)
 	if rerr != nil {
 		r.Inconclusive("rare-nonce fixture: " + rerr.Error())
 		return
@@ -167,24 +167,24 @@ func TestVerifC02(t *testing.T) {
 			d := keys[(i*7+j*3)%len(keys)]
 			var stream []byte
 			if j == 1 {
-				stream = append(stream, rangeRejects(rng)[i%5]...)
+				stream = append(stream, zvRangeRejects(rng)[i%5]...)
 			}
-			stream = append(append(stream, ref.B32(rc.k)...), ref.B32(randScalar(rng))...)
+			stream = append(append(stream, ref.B32(rc.k)...), ref.B32(zvRandScalar(rng))...)
 			stream = append(stream, rng.Bytes(32*4)...)
 			cases = append(cases, &c02case{d: d, priv: ref.B32(d), e: rc.e, stream: stream, chunk: chunks[rng.Intn(len(chunks))], plan: "random", label: rc.label})
 		}
 	}
 	// digests SOLVED so that (r + k) mod n, s or r has a carry-critical INTERNAL (Montgomery) representation:
 	// the signer's zero tests and final reductions work on that representation
-	for i, tg := range montgomeryPatternScalars(rng, hk.N(90, 400)) {
+	for i, tg := range zvMontgomeryPatternScalars(rng, hk.N(90, 400)) {
 		kind := []string{"r+k", "s", "r"}[i%3]
 		d := keys[(i*3)%len(keys)]
-		k := randScalar(rng)
-		e, ok := solveDigest(d, k, kind, tg)
+		k := zvRandScalar(rng)
+		e, ok := zvSolveDigest(d, k, kind, tg)
 		if !ok {
 			continue
 		}
-		stream := append(append(ref.B32(k), ref.B32(randScalar(rng))...), rng.Bytes(32*4)...)
+		stream := append(append(ref.B32(k), ref.B32(zvRandScalar(rng))...), rng.Bytes(32*4)...)
 		cases = append(cases, &c02case{d: d, priv: ref.B32(d), e: e, stream: stream, chunk: chunks[rng.Intn(len(chunks))], plan: "random", label: "montgomery-pattern-" + kind})
 	}
 	// VERY long runs of rejected candidates before the first acceptable one: the standard puts no bound on
@@ -197,7 +197,7 @@ func TestVerifC02(t *testing.T) {
 				copy(stream[32*i:], make([]byte, 32)) // k = 0 mixed in
 			}
 		}
-		stream = append(append(stream, ref.B32(randScalar(rng))...), rng.Bytes(64)...)
+		stream = append(append(stream, ref.B32(zvRandScalar(rng))...), rng.Bytes(64)...)
 		cases = append(cases, &c02case{d: d, priv: ref.B32(d), e: rng.Bytes(32), stream: stream, chunk: 0, plan: "random", label: "long-rejection-run"})
 	}
 	// SHORT ENCODINGS of the private key (leading zero bytes stripped, 1..31 bytes): the signer accepts them; the
@@ -217,18 +217,18 @@ func TestVerifC02(t *testing.T) {
 		d := keys[(i*11+3)%len(keys)]
 		e := rng.Bytes(32)
 		eI := ref.ModN(ref.Int(e))
-		rel := []*big.Int{new(big.Int).Set(d), ref.ModN(new(big.Int).Neg(d)), eI, ref.ModN(new(big.Int).Neg(eI)), new(big.Int).Add(d, bi(1)), new(big.Int).Sub(d, bi(1)),
-			ref.ModN(new(big.Int).Lsh(d, 1)), ref.ModN(new(big.Int).Sub(nm1, d)), ref.ModN(new(big.Int).Add(d, eI)), ref.InvN(new(big.Int).Add(d, bi(1)))}
+		rel := []*big.Int{new(big.Int).Set(d), ref.ModN(new(big.Int).Neg(d)), eI, ref.ModN(new(big.Int).Neg(eI)), new(big.Int).Add(d, zvBi(1)), new(big.Int).Sub(d, zvBi(1)),
+			ref.ModN(new(big.Int).Lsh(d, 1)), ref.ModN(new(big.Int).Sub(zvNm1, d)), ref.ModN(new(big.Int).Add(d, eI)), ref.InvN(new(big.Int).Add(d, zvBi(1)))}
 		names := []string{"k=d", "k=n-d", "k=e", "k=-e", "k=d+1", "k=d-1", "k=2d", "k=n-1-d", "k=d+e", "k=1/(1+d)"}
 		for j, k := range rel {
-			if k.Sign() <= 0 || k.Cmp(nI) >= 0 {
+			if k.Sign() <= 0 || k.Cmp(zvNI) >= 0 {
 				continue
 			}
 			ee := e
 			if (i+j)%4 == 0 {
 				ee = ref.B32(d) // and the digest is the key itself
 			}
-			stream := append(append(ref.B32(k), ref.B32(randScalar(rng))...), rng.Bytes(32*4)...)
+			stream := append(append(ref.B32(k), ref.B32(zvRandScalar(rng))...), rng.Bytes(32*4)...)
 			cases = append(cases, &c02case{d: d, priv: ref.B32(d), e: ee, stream: stream, chunk: chunks[rng.Intn(len(chunks))], plan: "random", label: "relation:" + names[j]})
 		}
 	}
@@ -240,7 +240,7 @@ func TestVerifC02(t *testing.T) {
 		for nrej := 0; nrej <= 3; nrej++ {
 			for _, rule := range []string{"", "r=0", "r+k=n", "s=0"} {
 				for rep := 0; rep < 2; rep++ {
-					rj := rangeRejects(rng)
+					rj := zvRangeRejects(rng)
 					var stream []byte
 					var plan []string
 					for j := 0; j < nrej; j++ {
@@ -252,25 +252,25 @@ func TestVerifC02(t *testing.T) {
 						// the candidate that the digest rule rejects comes in several shapes: random, with leading zero BYTES
 						// (its minimal encoding is shorter than 32 bytes), below 2^64, and n minus something small (so that n - k
 						// - which is r in the r+k=n case - has leading zero bytes): a rule rewritten on encodings must still fire
-						k := randScalar(rng)
+						k := zvRandScalar(rng)
 						switch (ki + nrej + rep) % 4 {
 						case 1:
 							k = new(big.Int).SetBytes(rng.Bytes(32 - 1 - rng.Intn(3)))
 						case 2:
 							k = new(big.Int).SetBytes(rng.Bytes(1 + rng.Intn(8)))
 						case 3:
-							k = new(big.Int).Sub(nI, new(big.Int).SetBytes(rng.Bytes(1+rng.Intn(30))))
+							k = new(big.Int).Sub(zvNI, new(big.Int).SetBytes(rng.Bytes(1+rng.Intn(30))))
 						}
 						if k.Sign() == 0 {
-							k = bi(1)
+							k = zvBi(1)
 						}
 						x1 := ref.BaseMulFast(k).X
 						var rT *big.Int
 						switch rule {
 						case "r=0":
-							rT = bi(0)
+							rT = zvBi(0)
 						case "r+k=n":
-							rT = new(big.Int).Sub(nI, k)
+							rT = new(big.Int).Sub(zvNI, k)
 						case "s=0":
 							rT = ref.ModN(new(big.Int).Mul(k, ref.InvN(d)))
 						}
@@ -286,7 +286,7 @@ func TestVerifC02(t *testing.T) {
 					stream = append(stream, rng.Bytes(32*6)...)
 					// make sure the first "valid" candidate is in range so that the plan is exact
 					fix := len(plan) * 32
-					copy(stream[fix:], ref.B32(randScalar(rng)))
+					copy(stream[fix:], ref.B32(zvRandScalar(rng)))
 					cases = append(cases, &c02case{d: d, priv: ref.B32(d), e: e, stream: stream, chunk: chunks[rng.Intn(len(chunks))],
 						zero: []int{0, 0, 3}[rng.Intn(3)], plan: strings.Join(plan, ",")})
 				}
@@ -315,9 +315,9 @@ func TestVerifC02(t *testing.T) {
 		}
 		hk.AtStackDepths(hk.N(700, 2000), 96<<10, 8, func(depth int) {
 			c, wr, ws := sel[depth%len(sel)], selR[depth%len(sel)], selS[depth%len(sel)]
-			rr, ss, err := SignHashed(&stackHungryReader{inner: newScript(c.stream), hungry: depth%3 == 0}, c.priv, c.e)
+			rr, ss, err := SignHashed(&zvStackHungryReader{inner: zvNewScript(c.stream), hungry: depth%3 == 0}, c.priv, c.e)
 			if err != nil || !bytes.Equal(rr, wr) || !bytes.Equal(ss, ws) {
-				r.Violation("signature-differs-from-standard:stack-grows-inside-the-call", hk.D{"stack_depth_frames": depth, "priv": hk.Hex(c.priv), "e": hk.Hex(c.e), "got_r": hexOrNil(rr), "model_r": hk.Hex(wr), "err": errStr(err)})
+				r.Violation("signature-differs-from-standard:stack-grows-inside-the-call", hk.D{"stack_depth_frames": depth, "priv": hk.Hex(c.priv), "e": hk.Hex(c.e), "got_r": zvHexOrNil(rr), "model_r": hk.Hex(wr), "err": zvErrStr(err)})
 			}
 		})
 		r.EvalN("stack-depth-sweep", hk.N(700, 2000))
@@ -327,11 +327,11 @@ func TestVerifC02(t *testing.T) {
 			c, wr, ws := sel[i%len(sel)], selR[i%len(sel)], selS[i%len(sel)]
 			var rr, ss []byte
 			var err error
-			h := newHandoffReader(newScript(c.stream), []int{16, 8, 31, 1}[i%4])
-			afterLargeStack([]int{150, 400, 1200, 60}[(i/4)%4], func() { rr, ss, err = SignHashed(h, c.priv, c.e) })
+			h := zvNewHandoffReader(zvNewScript(c.stream), []int{16, 8, 31, 1}[i%4])
+			zvAfterLargeStack([]int{150, 400, 1200, 60}[(i/4)%4], func() { rr, ss, err = SignHashed(h, c.priv, c.e) })
 			h.Close()
 			if err != nil || !bytes.Equal(rr, wr) || !bytes.Equal(ss, ws) {
-				r.Violation("signature-differs-from-standard:source-fills-the-buffer-from-another-goroutine", hk.D{"priv": hk.Hex(c.priv), "e": hk.Hex(c.e), "got_r": hexOrNil(rr), "model_r": hk.Hex(wr), "err": errStr(err), "piece": []int{16, 8, 31, 1}[i%4]})
+				r.Violation("signature-differs-from-standard:source-fills-the-buffer-from-another-goroutine", hk.D{"priv": hk.Hex(c.priv), "e": hk.Hex(c.e), "got_r": zvHexOrNil(rr), "model_r": hk.Hex(wr), "err": zvErrStr(err), "piece": []int{16, 8, 31, 1}[i%4]})
 			}
 			r.Eval("source:worker-goroutine-fills-the-buffer")
 		}
@@ -340,14 +340,14 @@ func TestVerifC02(t *testing.T) {
 	// first candidates from the LIMB GRID around n (every limb 0, n_i - 1, n_i, n_i + 1 or all ones): above n they must be
 	// skipped, below they must be used - a limb-wise range test that forgets a condition is wrong on some of these only
 	{
-		grid := ref.LimbGrid(nI)
+		grid := ref.LimbGrid(zvNI)
 		var extra []*c02case
 		for gi, kv := range grid {
 			if !hk.Thorough() && gi%3 != int(hk.Seed()%3) {
 				continue
 			}
 			d := keys[gi%len(keys)]
-			stream := append(append(ref.B32(kv), ref.B32(randScalar(rng))...), rng.Bytes(64)...)
+			stream := append(append(ref.B32(kv), ref.B32(zvRandScalar(rng))...), rng.Bytes(64)...)
 			extra = append(extra, &c02case{d: d, priv: ref.B32(d), e: rng.Bytes(32), stream: stream, chunk: chunks[gi%len(chunks)], plan: "random", label: "first-candidate-from-limb-grid-around-n"})
 		}
 		hk.Parallel(len(extra), func(i int) { c02run(r, extra[i]) })
@@ -363,22 +363,22 @@ func TestVerifC02(t *testing.T) {
 			for _, want := range []string{"r", "s"} {
 				for q := 0; q < hk.N(2, 8); q++ {
 					d := keys[rng.Intn(len(keys))]
-					k1 := randScalar(rng)
+					k1 := zvRandScalar(rng)
 					var e []byte
 					var ok bool
 					switch rule {
 					case "r=0":
-						e, ok = solveDigest(d, k1, "r", bi(0))
+						e, ok = zvSolveDigest(d, k1, "r", zvBi(0))
 					case "r+k=n":
-						e, ok = solveDigest(d, k1, "r+k", bi(0))
+						e, ok = zvSolveDigest(d, k1, "r+k", zvBi(0))
 					default:
-						e, ok = solveDigest(d, k1, "s", bi(0))
+						e, ok = zvSolveDigest(d, k1, "s", zvBi(0))
 					}
 					if !ok {
 						continue
 					}
 					for tries := 0; tries < 3000; tries++ {
-						k2 := randScalar(rng)
+						k2 := zvRandScalar(rng)
 						stream := append(append(ref.B32(k1), ref.B32(k2)...), rng.Bytes(64)...)
 						m := ref.SM2Sign(d, e, stream)
 						if m.R == nil || m.Consumed != 64 {
@@ -429,14 +429,14 @@ func TestVerifC02(t *testing.T) {
 			priv := pb[:len(c.priv)]
 			copy(priv, c.priv)
 			copy(eb[:], c.e)
-			rd := newScript(c.stream)
+			rd := zvNewScript(c.stream)
 			rd.chunk = c.chunk
 			var rr, ss []byte
 			var err error
 			p, msg, _, _ := hk.Try(func() { rr, ss, err = SignHashed(rd, priv, eb[:]) })
 			if p || err != nil || !bytes.Equal(rr, ref.B32(model.R)) || !bytes.Equal(ss, ref.B32(model.S)) {
 				r.Violation("signature-differs-from-standard:caller-reuses-key-and-digest-buffers", hk.D{"priv": hk.Hex(c.priv), "e": hk.Hex(c.e), "stream": hk.Hex(c.stream[:model.Consumed]),
-					"got_r": hexOrNil(rr), "got_s": hexOrNil(ss), "model_r": hk.Hex(ref.B32(model.R)), "model_s": hk.Hex(ref.B32(model.S)), "err": errStr(err), "panic": msg, "call_number": n})
+					"got_r": zvHexOrNil(rr), "got_s": zvHexOrNil(ss), "model_r": hk.Hex(ref.B32(model.R)), "model_s": hk.Hex(ref.B32(model.S)), "err": zvErrStr(err), "panic": msg, "call_number": n})
 			} else {
 				outs = append(outs, kept{rr, ss, ref.B32(model.R), ref.B32(model.S)})
 			}
@@ -461,7 +461,7 @@ func TestVerifC02(t *testing.T) {
 		case 1:
 			copy(stream, make([]byte, 32)) // k = 0 first
 		case 2:
-			copy(stream, ref.B32(nI)) // k = n first
+			copy(stream, ref.B32(zvNI)) // k = n first
 		case 3:
 			for j := 0; j < 9; j++ {
 				stream[j] = 0 // a nonce with leading zero bytes
@@ -471,13 +471,13 @@ func TestVerifC02(t *testing.T) {
 		if model.R == nil {
 			continue
 		}
-		rd := newScript(stream)
+		rd := zvNewScript(stream)
 		var rr, ss []byte
 		var err error
-		withGlobalRand(rd, func(src io.Reader) { rr, ss, err = SignHashed(src, ref.B32(d), e) })
+		zvWithGlobalRand(rd, func(src io.Reader) { rr, ss, err = SignHashed(src, ref.B32(d), e) })
 		if err != nil || !bytes.Equal(rr, ref.B32(model.R)) || !bytes.Equal(ss, ref.B32(model.S)) || rd.off != model.Consumed || rd.crossesUnit() {
-			r.Violation("signature-differs-from-standard:source=global-crypto/rand.Reader", hk.D{"priv": hk.Hex(ref.B32(d)), "e": hk.Hex(e), "stream": hk.Hex(stream[:model.Consumed]), "got_r": hexOrNil(rr), "got_s": hexOrNil(ss),
-				"err": errStr(err), "consumed": rd.off, "model_consumed": model.Consumed, "reads": rd.events})
+			r.Violation("signature-differs-from-standard:source=global-crypto/rand.Reader", hk.D{"priv": hk.Hex(ref.B32(d)), "e": hk.Hex(e), "stream": hk.Hex(stream[:model.Consumed]), "got_r": zvHexOrNil(rr), "got_s": zvHexOrNil(ss),
+				"err": zvErrStr(err), "consumed": rd.off, "model_consumed": model.Consumed, "reads": rd.events})
 		}
 		r.Eval("source=global-rand-reader,rejects=[" + strings.Join(model.Rejected, ",") + "]")
 	}
@@ -485,16 +485,16 @@ func TestVerifC02(t *testing.T) {
 	{
 		nrej := int64(1 << 24)
 		d := keys[5%len(keys)]
-		k := randScalar(rng)
+		k := zvRandScalar(rng)
 		e := rng.Bytes(32)
-		zr := &zeroRunReader{zeros: 32 * nrej, tail: append(ref.B32(k), rng.Bytes(64)...)}
+		zr := &zvZeroRunReader{zeros: 32 * nrej, tail: append(ref.B32(k), rng.Bytes(64)...)}
 		r.Journal("SignHashed after %d rejected candidates (all zero)", nrej)
 		rr, ss, err := SignHashed(zr, ref.B32(d), e)
 		m := ref.SM2Sign(d, e, append(ref.B32(k), zr.tail...))
 		if m.R == nil || len(m.Rejected) != 0 {
 			r.Inconclusive("c02: very-long-run case: the candidate after the run is rejected by the model")
 		} else if err != nil || !bytes.Equal(rr, ref.B32(m.R)) || !bytes.Equal(ss, ref.B32(m.S)) || zr.read != 32*nrej+32 {
-			r.Violation("signature-wrong-after-very-long-rejection-run", hk.D{"rejected_candidates": nrej, "err": errStr(err), "r": hexOrNil(rr), "s": hexOrNil(ss), "bytes_read": zr.read})
+			r.Violation("signature-wrong-after-very-long-rejection-run", hk.D{"rejected_candidates": nrej, "err": zvErrStr(err), "r": zvHexOrNil(rr), "s": zvHexOrNil(ss), "bytes_read": zr.read})
 		}
 		r.Eval("rejects=[2^24 x k=0]")
 	}
@@ -505,11 +505,11 @@ func TestVerifC02(t *testing.T) {
 	}
 	bad := []badKey{
 		{"zero-32", make([]byte, 32)},
-		{"n-1", ref.B32(nm1)},
-		{"n", ref.B32(nI)},
-		{"n+1", ref.B32(new(big.Int).Add(nI, bi(1)))},
-		{"2^256-1", ref.B32(new(big.Int).Sub(b256, bi(1)))},
-		{"33-bytes-leading-zero", append([]byte{0}, ref.B32(bi(5))...)},
+		{"n-1", ref.B32(zvNm1)},
+		{"n", ref.B32(zvNI)},
+		{"n+1", ref.B32(new(big.Int).Add(zvNI, zvBi(1)))},
+		{"2^256-1", ref.B32(new(big.Int).Sub(zvB256, zvBi(1)))},
+		{"33-bytes-leading-zero", append([]byte{0}, ref.B32(zvBi(5))...)},
 		{"33-bytes", rng.Bytes(33)},
 		{"64-bytes", rng.Bytes(64)},
 		{"empty", []byte{}},
@@ -519,12 +519,12 @@ func TestVerifC02(t *testing.T) {
 	}
 	for _, b := range bad {
 		for rep := 0; rep < 3; rep++ {
-			rd := newScript(rng.Bytes(32 * 8))
+			rd := zvNewScript(rng.Bytes(32 * 8))
 			var rr, ss []byte
 			var err error
 			e := rng.Bytes(32)
 			p, msg, _, _ := hk.Try(func() { rr, ss, err = SignHashed(rd, b.priv, e) })
-			d := hk.D{"priv": hexOrNil(b.priv), "e": hk.Hex(e), "r": hexOrNil(rr), "s": hexOrNil(ss), "err": errStr(err)}
+			d := hk.D{"priv": zvHexOrNil(b.priv), "e": hk.Hex(e), "r": zvHexOrNil(rr), "s": zvHexOrNil(ss), "err": zvErrStr(err)}
 			if p {
 				d["panic"] = msg
 				r.Violation("invalid-key-panics:"+b.name, d)
